@@ -402,7 +402,7 @@ func (aw *authWorld) emit(c *Ctx, ac *authCase, aclMode string, argc int) {
 
 func genC01(c *Ctx) error {
 	c.ShardSize = 150
-	c.Notes["rule"] = "every request is a real signed invocation of a sender-requiring method on one of the four routes (batched submission, task, immediate NBTx, query with sender). Exhaustive part: 3 key types x signer sets of 1..3 keys x policy n in 0..size+1 (0 = the answer carries no policy, size+1 = a policy larger than the key list) x every assignment of {valid, blank, corrupted, foreign-key, other-message, earlier request's, valid-with-extra-bytes} to the signature positions, on rotating routes; half of the accounts have an access-control answer carrying changed-key transactions (which the chaincode records for an authenticated request); plus ACL answers {ok, status 500, empty, garbled, black, grey, key-type list short/long/absent} x key types x routes, argument-count variants, garbage signature strings, bad nonces. Fifth route: the exported core.CheckSign with requests in the older format (every key must sign, ed25519 only). Non-trivial: rejected, or multi-signature."
+	c.Notes["rule"] = "every request is a real signed invocation of a sender-requiring method on one of the four routes (batched submission, task, immediate NBTx, query with sender). Exhaustive part: 3 key types x signer sets of 1..3 keys x policy n in 0..size+1 (0 = the answer carries no policy, size+1 = a policy larger than the key list) x every assignment of {valid, blank, corrupted, foreign-key, other-message, earlier request's, valid-with-extra-bytes} to the signature positions, on rotating routes; half of the accounts have an access-control answer carrying changed-key transactions (which the chaincode records for an authenticated request); plus ACL answers {ok, status 500, empty, garbled, black, grey, key-type list short/long/absent} x key types x routes, argument-count variants, garbage signature strings, bad nonces. A member's key repeated in the presented list. Fifth route: the exported core.CheckSign with requests in the older format (every key must sign, ed25519 only). Non-trivial: rejected, or multi-signature."
 	aw, err := newAuthWorld()
 	if err != nil {
 		return err
@@ -530,8 +530,36 @@ func genC01(c *Ctx) error {
 				aw.emit(c, ac, am, 2)
 			}
 		}
+		// a member of a 2-of-3 account names his own key twice and signs twice, the others' slots blank: the access-control
+		// service is asked about the key list as presented, and knows no such account
+		{
+			m := []*User{w.NewUser(kts[r%3]), w.NewUser(kts[r%3]), w.NewUser(kts[r%3])}
+			ms := w.NewAccountOf(m...)
+			ms.ReqN = 2
+			for _, dup := range [][]*User{{m[0], m[0], m[1], m[2]}, {m[0], m[0], m[1]}, {m[0], m[1], m[0], m[2]}} {
+				lone := &Account{ID: ms.ID, Members: dup, Addr: ms.Addr, ReqN: 2, Multisig: true}
+				modes := make([]SigMode, len(dup))
+				for i, u := range dup {
+					if u != m[0] {
+						modes[i] = SigBlank
+					}
+				}
+				ac = aw.buildAuth("tt", r, lone, modes, "ok")
+				ac.account = ms
+				aw.emit(c, ac, "ok", 2)
+				c.Count("repeated_key_in_the_list")
+			}
+		}
 		single := w.NewAccount(kts[r%3])
 		single.ReqN = 1
+		// the request id (the first signed field) replaced after signing: the signatures are over another message
+		for _, acc := range []*Account{single, mixed} {
+			ac = aw.buildAuth("tt", r, acc, nil, "ok")
+			ac.Args[0] = "rid-" + strconv.Itoa(aw.tag)
+			ac.badSig, ac.tampered = true, true
+			aw.emit(c, ac, "ok", 2)
+			c.Count("request_id_replaced_after_signing")
+		}
 		// bad nonce strings (auth parses the nonce after the signatures)
 		for _, bad := range []string{"", "12x", "-5", " 1700000000001"} {
 			aw.nonce++
